@@ -33,6 +33,15 @@ type EdgeRule struct {
 	C, P     ssa.Value
 }
 
+type edgeSiteT struct {
+	call  ssa.CallInstruction
+	a     []ssa.Value
+	lits  []core.Lit
+	pos   string
+	inner ssa.CallInstruction
+	env   map[*ssa.Parameter]ssa.Value
+}
+
 const emptyStr = `const:""`
 
 func (c *Ctx) edgeRules() []EdgeRule {
@@ -57,14 +66,7 @@ func (c *Ctx) edgeRules() []EdgeRule {
 	}
 	addEdgeWeight, addEdgeOK := c.addEdgeSummary()
 	var out []EdgeRule
-	type edgeSite struct {
-		call  ssa.CallInstruction
-		a     []ssa.Value
-		lits  []core.Lit
-		pos   string
-		inner ssa.CallInstruction
-		env   map[*ssa.Parameter]ssa.Value
-	}
+	type edgeSite = edgeSiteT
 	for _, f := range p.ArgFuncs() {
 		var esites []edgeSite
 		for _, call := range core.Calls(f, core.GAddEdge, core.GAddEdgeW) {
@@ -112,6 +114,15 @@ func (c *Ctx) edgeRules() []EdgeRule {
 				esites = append(esites, edgeSite{site, b, lits, p.InstrPos(site), call, env})
 			}
 		}
+		// an operand chosen by an accessor that switches on a discriminator of its receiver (`val.vertex()`,
+		// `val.weight()`): one edge per case
+		var split []edgeSite
+		for _, es := range esites {
+			split = append(split, c.splitByCase(es.call, es.a, es.lits, es.pos, es.inner, es.env, func(call ssa.CallInstruction, a []ssa.Value, lits []core.Lit, env map[*ssa.Parameter]ssa.Value) edgeSite {
+				return edgeSite{call, a, lits, es.pos, es.inner, env}
+			})...)
+		}
+		esites = split
 		for _, es := range esites {
 			call, a := es.call, es.a
 			ef := call.Parent()
@@ -145,6 +156,171 @@ func (c *Ctx) edgeRules() []EdgeRule {
 	}
 	sort.SliceStable(out, func(i, j int) bool { return out[i].Call.Pos() < out[j].Call.Pos() })
 	c.edges = out
+	return out
+}
+
+// caseAccessor describes a call of an accessor whose every return is selected by comparing one discriminator of its
+// first parameter with a constant (`switch v.Kind() { case A: return x; case B: return y; default: panic }`).
+type caseAccessor struct {
+	call  *ssa.Call
+	disc  string               // path of the discriminator over the accessor's first parameter
+	vals  map[string]ssa.Value // constant -> returned value
+	lits  map[string][]core.Lit
+	order []string
+}
+
+func (c *Ctx) caseAccessorOf(v ssa.Value) *caseAccessor {
+	call, ok := core.Strip(v).(*ssa.Call)
+	if !ok || call.Common().IsInvoke() {
+		return nil
+	}
+	h := call.Common().StaticCallee()
+	if h == nil || !c.P.InTarget(h) || len(h.Blocks) == 0 || len(h.Params) == 0 || len(call.Common().Args) != 1 {
+		return nil
+	}
+	ca := &caseAccessor{call: call, vals: map[string]ssa.Value{}, lits: map[string][]core.Lit{}}
+	rets := core.Returns(h)
+	if len(rets) < 2 {
+		return nil
+	}
+	for _, r := range rets {
+		if len(r.Results) != 1 {
+			return nil
+		}
+		key := ""
+		lits := core.Lits(core.Guards(r.Block()))
+		for _, l := range lits {
+			if l.Kind != "cmp" || l.Op != token.EQL {
+				return nil
+			}
+			x, y := l.X, l.Y
+			if _, isK := x.(*ssa.Const); isK {
+				x, y = y, x
+			}
+			k, isK := y.(*ssa.Const)
+			if !isK || k.Value == nil {
+				return nil
+			}
+			d := core.Path(x)
+			if dc, isCall := x.(*ssa.Call); isCall && !dc.Common().IsInvoke() && len(dc.Common().Args) == 1 && dc.Common().Args[0] == ssa.Value(h.Params[0]) {
+				// a read-only classifier of the receiver (`v.Kind()`)
+				if g := dc.Common().StaticCallee(); g != nil && c.readOnlyFunc(g, 0) {
+					d = core.FuncName(g) + "(param0)"
+				}
+			}
+			if !strings.Contains(d, "param0") || (ca.disc != "" && d != ca.disc) {
+				return nil
+			}
+			ca.disc = d
+			if l.Pol {
+				if key != "" {
+					return nil
+				}
+				key = core.Path(k)
+			}
+		}
+		if key == "" {
+			return nil
+		}
+		if _, dup := ca.vals[key]; dup {
+			return nil
+		}
+		ca.vals[key] = r.Results[0]
+		ca.lits[key] = lits
+		ca.order = append(ca.order, key)
+	}
+	// every other way out of the accessor is a panic (the switch is exhaustive or fails loudly)
+	for _, b := range h.Blocks {
+		if len(b.Instrs) == 0 {
+			continue
+		}
+		switch b.Instrs[len(b.Instrs)-1].(type) {
+		case *ssa.Return, *ssa.Panic, *ssa.If, *ssa.Jump:
+		default:
+			return nil
+		}
+	}
+	sort.Strings(ca.order)
+	return ca
+}
+
+// readOnlyFunc: f (a function of the target) writes no memory and calls nothing but read-only functions: two calls
+// with the same argument and no intervening write give the same result.
+func (c *Ctx) readOnlyFunc(f *ssa.Function, d int) bool {
+	if f == nil || len(f.Blocks) == 0 || !c.P.InTarget(f) || d > 2 {
+		return false
+	}
+	ok := true
+	core.Instrs(f, func(in ssa.Instruction) {
+		switch x := in.(type) {
+		case *ssa.Store:
+			if _, local := x.Addr.(*ssa.Alloc); !local {
+				ok = false
+			}
+		case *ssa.MapUpdate, *ssa.Send, *ssa.Go, *ssa.Defer:
+			ok = false
+		case ssa.CallInstruction:
+			if x.Common().IsInvoke() {
+				ok = false
+				return
+			}
+			g := x.Common().StaticCallee()
+			if g == nil {
+				ok = false
+				return
+			}
+			if core.IsPureCallee(core.CalleeName(x.Common())) {
+				return
+			}
+			if !c.readOnlyFunc(g, d+1) {
+				ok = false
+			}
+		}
+	})
+	return ok
+}
+
+// splitByCase expands an edge site whose vertex or weight operands are chosen by case accessors of the same
+// receiver and discriminator into one site per case.
+func (c *Ctx) splitByCase(call ssa.CallInstruction, a []ssa.Value, lits []core.Lit, pos string, inner ssa.CallInstruction,
+	env map[*ssa.Parameter]ssa.Value, mk func(ssa.CallInstruction, []ssa.Value, []core.Lit, map[*ssa.Parameter]ssa.Value) edgeSiteT) []edgeSiteT {
+	same := []edgeSiteT{mk(call, a, lits, env)}
+	var accs []*caseAccessor
+	idx := []int{}
+	for i := 1; i < len(a); i++ {
+		x := a[i]
+		if i < 3 {
+			x = peelAdd(x)
+		}
+		if ca := c.caseAccessorOf(x); ca != nil {
+			accs = append(accs, ca)
+			idx = append(idx, i)
+		}
+	}
+	if len(accs) == 0 {
+		return same
+	}
+	first := accs[0]
+	for _, ca := range accs[1:] {
+		if ca.disc != first.disc || strings.Join(ca.order, ",") != strings.Join(first.order, ",") ||
+			core.Path(ca.call.Common().Args[0]) != core.Path(first.call.Common().Args[0]) {
+			return same
+		}
+	}
+	var out []edgeSiteT
+	for _, key := range first.order {
+		b := append([]ssa.Value{}, a...)
+		env2 := map[*ssa.Parameter]ssa.Value{}
+		for k, v := range env {
+			env2[k] = v
+		}
+		for j, ca := range accs {
+			b[idx[j]] = ca.vals[key]
+			env2[ca.call.Common().StaticCallee().Params[0]] = ca.call.Common().Args[0]
+		}
+		l2 := append(append([]core.Lit{}, lits...), first.lits[key]...)
+		out = append(out, mk(call, b, l2, env2))
+	}
 	return out
 }
 
